@@ -35,8 +35,8 @@ CLAIMED = {
    note="deflate itself is trusted and modelled as a stored codec, so the compressed size's own VarInt boundary and real compression ratios are outside the claim; sync.Pool modelled as nondeterministic reuse.",
    ref="6 C07"),
  "C08": dict(
-   text="Panic-freedom on arbitrary input: every byte string of length 0..6 (quick) / 0..10 (thorough) fed to each packet field decoder and combinator, frame unpacking in both modes (compressed content arbitrary via the model codec), BitStorage/PaletteContainer/Section.ReadFrom and Chunk.PutData from fresh and used receivers. Every Go run-time panic site (index, slice bound, make, nil, division, explicit panic) is a solver query on every path; negative length prefixes are covered for the full int32 range.",
-   note="accepted non-negative length prefixes are enumerated only up to input length + 2; JSON text components, chat NBT components and registry data are not covered. Also covered (reflect shim): Ary with 5 prefix types, NBTField into any/struct/map, BlockEntity and Chunk.ReadFrom incl. structured height maps of wrong sizes; the command dispatcher on every ASCII line of 0..5 (quick) / 0..7 bytes against three graphs built with the public builders.",
+   text="Panic-freedom on arbitrary input: every byte string of length 0..6 (quick) / 0..8 (thorough) fed to each packet field decoder and combinator, frame unpacking in both modes (compressed content arbitrary via the model codec), BitStorage/PaletteContainer/Section.ReadFrom and Chunk.PutData from fresh and used receivers. Every Go run-time panic site (index, slice bound, make, nil, division, explicit panic) is a solver query on every path; negative length prefixes are covered for the full int32 range.",
+   note="accepted non-negative length prefixes are enumerated only up to input length + 2; JSON text components, chat NBT components and registry data are not covered. Also covered (reflect shim): Ary with 5 prefix types, NBTField into any/struct/map, BlockEntity and Chunk.ReadFrom incl. structured height maps of wrong sizes; the command dispatcher on every ASCII line of 0..5 (quick) / 0..6 bytes against three graphs built with the public builders.",
    ref="6 C08"),
  "C09": dict(
    text="For every byte string of length 0..5 (quick) / 0..9 (thorough) and each of 14 stream decoders (fixed-width fields, VarInt/VarLong, Position, UUID, String, ByteArray, BitSet, FixedBitSet, Option, uncompressed frame): the result under 1/2/3-byte fragmentation equals the contiguous read (value, count, error-ness, residual); a reader failing or ending at every offset before completion yields an error; a writer failing after k bytes makes WriteTo/Pack fail for every k.",
